@@ -11,15 +11,15 @@ CHECKS = {
    note="Trusted: refmodel (nested BTreeMap), rustc. Bounds per scenario in evidence. Page size 1024, strict profile (debug assertions, overflow checks)."),
  "C05": dict(engine="seqx", cat="model_checking", ref="DESIGN.md §2 C05",
    technique="explicit-state search over operation histories; after every commit an independent parser checks the raw file (page partition, bounds, order, separators) and DB::check() must agree",
-   text="Same exploration as C01 with only the structural oracle: after every commit of every explored history the file is parsed by fileck (no code shared with the library) and every page below the high-water mark must be accounted for exactly once. Alphabets include dropped transactions, page sizes 1024-16384, boundary-size values, binary / empty / long keys, five-level nesting, 560 sibling buckets, bulk blocks (3-4 level trees).",
+   text="Same exploration as C01 with only the structural oracle: after every commit of every explored history the file is parsed by fileck (no code shared with the library) and every page below the high-water mark must be accounted for exactly once. Alphabets include dropped transactions, page sizes 1024-16384, boundary-size values, binary / empty / long keys, five-level nesting, 560 sibling buckets, bulk blocks (3-4 level trees), every deletion subset in windows of a five-level tree with nested buckets, every pair of inserts into it, unsplittable multi-page leaves holding nested-bucket entries, non-ASCII text passed as owned Strings.",
    note="Trusted: fileck (restates the pinned layout). Bounds per scenario in evidence."),
  "C06": dict(engine="seqx", cat="model_checking", ref="DESIGN.md §2 C06",
    technique="explicit-state search over commit/drop/reopen/read-only histories; byte-identity of the file and absence of write calls (interposed libc), digest equality, and one-step bisimulation of follow-up commits",
-   text="All histories over a menu of large transactions (bulk inserts, nested bucket deletes, overflow values, failing calls) each committed or dropped, reopen, and every mutator attempted through a read-only transaction; a non-committing action must leave file bytes, the shared free list and every follow-up commit unchanged. Further scenarios: one header slot torn by the environment and commits failing at each of their I/O calls (plain and cut short), opens with another page size (refused, bytes unchanged), headers moved into the pinned slots, strict mode on a file with a leaked page (a commit that reports an error must not have changed anything).",
+   text="All histories over a menu of large transactions (bulk inserts, nested bucket deletes, overflow values, failing calls) each committed or dropped, reopen, and every mutator attempted through a read-only transaction; a non-committing action must leave file bytes, the shared free list and every follow-up commit unchanged. Further scenarios: one header slot torn by the environment and commits failing at each of their I/O calls (plain and cut short), opens with another page size (refused, bytes unchanged), headers moved into the pinned slots, strict mode on a file with a leaked page (a commit that reports an error must not have changed anything); a committed transaction containing calls that returned an error must leave exactly the file it leaves without them (twin run at the same hash-seed position).",
    note="Trusted: interposition sees every write path of the library (write/fallocate/ftruncate on the database fd). Follow-ups are compared at equal hash-seed positions."),
  "C07": dict(engine="seqx", cat="model_checking", ref="DESIGN.md §2 C07",
    technique="explicit-state search over operation histories with the full read API compared against the reference model after every single operation inside the write transaction",
-   text="Same histories as C01 in probing mode: after each put/delete/bucket operation inside the open write transaction, point gets of every key of the universe, cursor scan, bucket and pair listings, seek to every key and a menu of ranges are compared with the model; every put into a non-empty bucket is made while a positioned cursor of that bucket is kept (it must still reach every untouched later entry); one transaction puts 66 000 entries and reads around slots 2^7..2^16.",
+   text="Same histories as C01 in probing mode: after each put/delete/bucket operation inside the open write transaction, point gets of every key of the universe, cursor scan, bucket and pair listings, seek to every key and a menu of ranges are compared with the model; every put into a non-empty bucket is made while a positioned cursor of that bucket is kept (it must still reach every untouched later entry); one transaction puts 66 000 entries and reads around slots 2^7..2^16; every pair of inserts into a five-level tree.",
    note="Trusted: refmodel. Probing changes the overlay's bookkeeping, so this is a different exploration from C01."),
  "C08": dict(engine="enumx", cat="exploration", ref="DESIGN.md §2 C08",
    technique="bounded-exhaustive enumeration of all seek keys and all bound pairs of every kind over a catalogue of tree shapes (committed and mid-transaction), executed on the real library against the reference filter",
@@ -48,11 +48,11 @@ CHECKS = {
  "C13": dict(engine="schedx", cat="model_checking", ref="DESIGN.md §2 C13",
    technique="stateless exploration of all schedules (2 openers: complete; 3 openers: preemption-bounded) of openers at system-call granularity: opener threads with flock modelled by the scheduler per inode, and forked opener processes released one system call at a time under the kernel's own flock",
    text="Two and three openers of the same file, existing or not yet created, each committing a marker while it holds the database: under every explored schedule never two openers inside, every open returns Ok, each opener sees the markers of all openers that closed before its open returned, no deadlock, all markers in the final file.",
-   note="Thread cases: openers are threads with independent descriptors (flock is per open file description; the scheduler's lock model takes the kernel's answer for every lock it grants). Process cases: the same opener bodies as forked processes, each stopped through a pipe before every system call on the database file and released one at a time, flock answered by the kernel alone. Variants: signal during the lock wait, failed initialisation, failed length query, failed sync then file growth, holder growing the file, second descriptor on the same file, different num_pages / populate per opener."),
+   note="Thread cases: openers are threads with independent descriptors (flock is per open file description; the scheduler's lock model takes the kernel's answer for every lock it grants). Process cases: the same opener bodies as forked processes, each stopped through a pipe before every system call on the database file and released one at a time, flock answered by the kernel alone. Variants: signal during the lock wait, failed initialisation, failed length query, failed sync then file growth, holder growing the file, second descriptor on the same file, different num_pages / populate per opener, hard link as second name, direct_writes, DB::check() by the holder, a clone of the handle dropped by the holder, holders that start a helper program which outlives the handle (the kernel must not report the lock taken once every handle is closed)."),
  "C03": dict(engine="seqx", cat="model_checking", ref="DESIGN.md §2 C03",
    technique="explicit-state breadth-first search over single-threaded interleavings of open-reader / close-reader / committing and rolled-back writers on the real library; every open reader fully re-dumped after every action and compared with the state recorded when it was opened",
    text="All action sequences to the stated depth over {open reader (up to k open), close reader i, commit j, drop j} with a page-reusing update/delete menu: after every action every long-lived read transaction must still dump exactly the state committed when it began (a consistent newer state is a violation here). Unmapped database memory is replaced by inaccessible pages so a stale pointer faults deterministically.",
-   note="Trusted: refmodel; the file is pre-sized because growing it while the same thread holds a reader self-deadlocks by design (documented). Supplements inside the same check: readers opened while a write transaction is open, commit() on a reader, staged histories holding a reader over 8-66 (thorough 260) commits, and a preemption-bounded threaded run (reader threads beginning inside another thread's commit)."),
+   note="Trusted: refmodel; the file is pre-sized because growing it while the same thread holds a reader self-deadlocks by design (documented). Supplements inside the same check: readers opened while a write transaction is open, commit() on a reader, staged histories holding a reader over 8-66 (thorough 260) commits, a preemption-bounded threaded run (reader threads beginning inside another thread's commit), writers whose header write fails, and every mutator attempted by each long-lived reader (by name and through listing handles) before each comparison."),
  "C10": dict(engine="seqx", cat="model_checking", ref="DESIGN.md §2 C10",
    technique="explicit-state closure search: complete reachable state graph of small cyclic workloads on the real library, keyed by a digest without absolute transaction ids (fixpoint = bounded page high-water mark for all infinite runs over that alphabet), plus long deterministic laps",
    text="For each small cyclic workload (fixed- and two-size overwrites, delete/re-insert, bucket delete/recreate, an overflow value coming and going, reopen, one reader pinned across up to three commits) the search runs until no new state appears; the maximum page high-water mark over the closed set is a bound for every infinite run. Larger workloads run as deterministic laps of 2 000 / 20 000 (one lap 70 000) transactions with plateau, reopen and pinned-reader rules: overwrites, bucket churn, multi-page free lists, three overlapping readers, rollbacks, long keys, a 9 MiB value, nested-then-ancestor deletes.",
@@ -67,7 +67,7 @@ CHECKS = {
    note="Trusted: fileck (pinned layout constants), the golden generation procedure (golden/README), refmodel."),
  "C14": dict(engine="typex", cat="exploration", ref="DESIGN.md §2 C14",
    technique="bounded-exhaustive enumeration of client programs generated from the complete public API surface (nightly rustdoc JSON of the current tree: methods, trait impls, enum-variant fields, public struct fields) x escape routes; each decided by rustc's type/borrow checker, and every program that compiles executed in a probe process with unmapped memory made inaccessible",
-   text="For every public method and trait method on every type reachable from a transaction (producers, arguments synthesised from the bounds) and every escape route (past the transaction's scope, past commit, returned from the owning function, leaked transaction past its database, moved / shared into scoped and spawned threads, plus argument and handle routes) the program must be rejected with a borrow / lifetime / Send error, or, if it compiles, run without a fault and with identical bytes while the file is rewritten and remapped; positive controls must compile, and every 'ordinary usage' program (value outlives the temporary handles, not the transaction) that the repaired pinned types accept (golden/typex_ordinary_baseline.json) must still compile.",
+   text="For every public method and trait method on every type reachable from a transaction (producers, arguments synthesised from the bounds) and every escape route (past the transaction's scope, past commit, returned from the owning function, leaked transaction past its database, moved / shared into scoped and spawned threads, plus argument and handle routes) the program must be rejected with a borrow / lifetime / Send error, or, if it compiles, run without a fault and with identical bytes while the file is rewritten and remapped; positive controls must compile, and every 'ordinary usage' program (value outlives the temporary handles, not the transaction) that the repaired pinned types accept (golden/typex_ordinary_baseline.json) must still compile - including named handles / iterators still in scope at commit, listed names and owned Strings as arguments of every key-taking method, and From conversions as producers.",
    note="Trusted: rustc; the munmap-poisoning probe. API items the synthesiser cannot call are listed as coverage gaps in the evidence, never as violations."),
 }
 
